@@ -56,6 +56,20 @@ func (e *Env) ghostClause(cl *Clause) {
 		t := c.boolTerm(cl.Expr)
 		e.assert(t, "assert", fmt.Sprintf("%d", cl.Ord), cl.Tags, cl.Text, fmt.Sprintf("%s:%d", e.fc.File, cl.Line))
 		e.assume(t)
+	case "class":
+		e.forceClass = cl.Int
+	case "assume-fresh":
+		v := c.tr(cl.Expr)
+		if v.K != VPtr {
+			e.errorf("assume-fresh: %s is not a pointer", cl.Expr.String())
+			return
+		}
+		e.assume(And(Gt(v.T, IntLit(0)), Ge(v.T, e.nextObj())))
+		e.assign("$nextObj", SInt, Add(v.T, IntLit(1)))
+		e.w.trustedNote("assumed in " + e.short + ": the object obtained at \"" + cl.Anchor + "\" is held by nobody else (sync.Pool contract)")
+	case "assume-at":
+		e.assume(c.boolTerm(cl.Expr))
+		e.w.trustedNote("assumed in " + e.short + " (" + e.fc.File + "): " + cl.Text)
 	case "ghost":
 		v := c.tr(cl.Expr)
 		e.ghostAssign(c, cl.TExpr, v)
@@ -86,6 +100,19 @@ func (e *Env) ghostAssign(c *specCtx, target *SExpr, v Value) {
 			return
 		}
 	}
+	if target.Kind == "sel" {
+		base := c.tr(target.Args[0])
+		if base.K == VPtr || base.K == VStruct {
+			t := base.Typ
+			if base.K == VPtr {
+				t = derefType(t)
+			}
+			if steps, lf, _, ok := findField(t, target.Name); ok && lf != nil {
+				e.storeField(subID(base.T, steps), *lf, v)
+				return
+			}
+		}
+	}
 	e.errorf("ghost assignment to unsupported target %s", target.String())
 }
 
@@ -106,7 +133,19 @@ func (e *Env) bodyCtx() *specCtx {
 			}
 		}
 	}
-	return &specCtx{e: e, names: names, bound: map[string]*Term{}, oldMap: e.entryOld}
+	return &specCtx{e: e, names: names, bound: map[string]*Term{}, oldMap: e.entryOld, classOf: e.ownClass}
+}
+
+// ownClass is the payload class of a parameter of the function under verification.
+func (e *Env) ownClass(param string) *Term {
+	if e.fc != nil {
+		for _, pub := range e.fc.Public {
+			if pub == param {
+				return IntLit(1)
+			}
+		}
+	}
+	return e.classVar(param)
 }
 
 // entryOld maps a program variable to its value at function entry.
@@ -121,8 +160,10 @@ func (e *Env) entryOld(name string, s Sort) *Term {
 
 func (e *Env) block(list []ast.Stmt) {
 	for _, s := range list {
+		e.forceClass = -1
 		e.anchored(s, true)
 		e.stmt(s)
+		e.forceClass = -1
 		e.anchored(s, false)
 	}
 }
